@@ -126,5 +126,5 @@ def run(tier="quick", seed=0, arg=None):
     return {"suite": "eqhash", "evaluations": evals, "distinct_nontrivial": distinct,
             "rule": "all ordered pairs over %d specifier objects (both spellings of the universal set, reachable results, generic atoms) and %d marker objects "
                     "(atoms in both operand orders, '3.10' vs '3.10.0', results of &/| with attached caches); triples over a sub-sample; non-trivial = pairs that compare equal" % (len(specs), len(ms)),
-            "samples": samples or [{"x": repr(specs[0]), "y": repr(specs[1]), "equal": specs[0] == specs[1]}], "failures": fails[:200], "n_failures": len(fails),
+            "samples": samples or [{"x": repr(specs[0]), "y": repr(specs[1]), "equal": specs[0] == specs[1]}], "failures": fails[:3000], "n_failures": len(fails),
             "bound": f"{len(specs)} specifiers, {len(ms)} markers"}
